@@ -90,6 +90,7 @@ class Ctx:
         self.t0 = time.time()
         self.cpu_budget = None
         self.only_case = None  # (stream, index) when replaying
+        self.timeouts = 0
         self.verbose = False
 
     # ---- recording -----------------------------------------------------
@@ -140,6 +141,11 @@ class Ctx:
                 yield Case(self, stream, self.only_case[1])
             return
         for i in range(self.worker, total, self.nworkers):
+            if self.timeouts >= 4:
+                # every further case would cost another CPU-time bound and
+                # the verdict is already decided
+                self.count("cases_skipped_after_timeouts:" + stream)
+                return
             if self.out_of_budget():
                 self.count("cases_skipped_cpu_budget:" + stream)
                 self.inconclusive.append(
@@ -162,6 +168,7 @@ class Ctx:
         except RecursionError:
             raise
         except OpTimeout as e:
+            self.timeouts += 1
             self.violation(default_prop or self.prop, "case-timeout",
                            "case exceeded its CPU-time bound (possible "
                            "hang): %s" % e, case,
